@@ -3,7 +3,7 @@
 # on /repo's current tree and print one line per check (exit code, wall time, verdict lines).
 TIER="${1:-quick}"; shift
 IDS="$@"
-[ -z "$IDS" ] && IDS=$(python3 -c "import json;print(' '.join(c['property_id'] for c in json.load(open("MANIFEST.json"))['checks']))")
+[ -z "$IDS" ] && IDS=$(python3 -c 'import json;print(" ".join(c["property_id"] for c in json.load(open("MANIFEST.json"))["checks"]))')
 cd "$(cd "$(dirname "$0")/.." && pwd)"
 fail=0
 for id in $IDS; do
